@@ -238,37 +238,41 @@ structure DLayer where
   c : List Nat                     -- the temporary division vector (for inspection)
   deriving Repr
 
+/-- the ValueError guards at the top of `_layer`; returns `(a[0], a[-1], b[-1], b[-2])` -/
+def dlGuards (a b : List Nat) (force : Bool) : Option (Nat × Nat × Nat × Nat) :=
+  if a.length < 2 then none       -- precondition: `a` is the division tuple of a frame (≥ 1 partition)
+  else if b.length < 2 then none  -- "New division must be longer than 2 elements"
+  else do
+    let a0 ← a.head?
+    let b0 ← b.head?
+    let aL ← a.getLast?
+    let bL ← b.getLast?
+    let bL2 ← b[b.length - 2]?
+    if (if force then decide (a0 < b0 ∨ aL > bL) else decide (a0 ≠ b0 ∨ aL ≠ bL)) then none   -- ValueError guards
+    else some (a0, aL, bL, bL2)
+
+/-- the part after the first walk: the remaining new divisions, or the single-last-division piece -/
+def dlRight (a b : List Nat) (aL bL bL2 : Nat) (s : W1) : Option (List Nat × List Slice) :=
+  if aL < bL ∨ bL = bL2 then
+    some (tailRight a (b.drop s.j) s.low s.c s.d)
+  else if isSingleLastDiv a && decide (s.i < a.length) then
+    (a[s.i]?).map fun ai => (aL :: s.c, ⟨s.i - 1, ai, ai, false⟩ :: s.d)
+  else some (aL :: s.c, s.d)
+
+/-- `d[(out1, k - 1)] = d[(out1, k - 1)][:-1] + (True,)` (KeyError when `k = 0`) -/
+def dlMarkLast : List Slice → Option (List Slice)
+  | [] => none
+  | x :: xs => some ({ x with rb := true } :: xs)
+
 /-- `RepartitionDivisions._layer` for old divisions `a`, new divisions `b`.
     `none` = the Python code raises (ValueError guards, IndexError/KeyError inside the walks). -/
 def divisionsLayer (a b : List Nat) (force : Bool) : Option DLayer := do
-  if a.length < 2 then none   -- precondition: `a` is the division tuple of a frame (≥ 1 partition)
-  if b.length < 2 then none
-  let a0 ← a.head?
-  let b0 ← b.head?
-  let aL ← a.getLast?
-  let bL ← b.getLast?
-  if (if force then decide (a0 < b0 ∨ aL > bL) else decide (a0 ≠ b0 ∨ aL ≠ bL)) then none   -- ValueError guards
-  let lastElemA := isSingleLastDiv a
+  let (a0, aL, bL, bL2) ← dlGuards a b force
   let s ← walk1 a b (a.length + b.length) { i := 1, j := 1, low := a0, c := [a0], d := [] }
-  let bL2 ← b[b.length - 2]?
-  let (c, d) ←
-    if aL < bL ∨ bL = bL2 then
-      some (tailRight a (b.drop s.j) s.low s.c s.d)
-    else do
-      let d' ← if lastElemA && decide (s.i < a.length) then do
-          let ai ← a[s.i]?
-          pure (⟨s.i - 1, ai, ai, false⟩ :: s.d)
-        else pure s.d
-      pure (aL :: s.c, d')
-  -- d[(out1, k - 1)] = d[(out1, k - 1)][:-1] + (True,)     (KeyError when k = 0)
-  let d ← match d with
-    | [] => none
-    | x :: xs => some ({ x with rb := true } :: xs)
-  let c := c.reverse
-  let d := d.reverse
-  let k := d.length
-  let out ← walk2 b c (isSingleLastDiv c) bL (bL != bL2) k (b.drop 1) 1 0
-  pure { slices := d, out := out, c := c }
+  let (c, d) ← dlRight a b aL bL bL2 s
+  let d ← dlMarkLast d
+  let out ← walk2 b c.reverse (isSingleLastDiv c.reverse) bL (bL != bL2) d.length (b.drop 1) 1 0
+  pure { slices := d.reverse, out := out, c := c.reverse }
 
 /-- run a divisions layer on concrete partitions (rows carry their index key) -/
 def evalDivisions {α : Type} (key : α → Nat) (parts : List (List α)) (L : DLayer) : Option (List (List α)) := do
